@@ -11,4 +11,4 @@ n=len(re.findall(old,s))
 if n!=1: print("mutation pattern matches",n,"times"); sys.exit(1)
 open(p,'w').write(re.sub(old,new,s,count=1))
 PY
-cd /verif && PYVC_REPO=$D "$@"
+mkdir -p "$D/_ev" "$D/_rp"; cd /verif && PYVC_EVIDENCE_DIR="$D/_ev" PYVC_REPLAY_DIR="$D/_rp" PYVC_REPO=$D "$@"
